@@ -110,6 +110,17 @@ def install(tr):
             finally:
                 tr.effect('unlink')
 
+        def open(self, path, flags, *a, **kw):
+            r = real_os.open(path, flags, *a, **kw)
+            if flags & (real_os.O_WRONLY | real_os.O_RDWR) and flags & (real_os.O_TRUNC | real_os.O_CREAT):
+                tr.effect('open-write')        # a write that does not go through a temporary file
+            return r
+
+        def truncate(self, *a, **kw):
+            r = real_os.truncate(*a, **kw)
+            tr.effect('open-write')
+            return r
+
     def mkstemp(dir=None):
         r = saved['mkstemp'](dir=dir)
         tr.effect('create')
@@ -221,6 +232,7 @@ def run_case(case, model):
         shutil.rmtree(root, ignore_errors=True)
     # ---- chunk counts per op, for the model
     per_op = {}
+    unmodelled = []
     for tag, files in tr.snaps:
         if tag[0] == 'before':
             continue
@@ -234,9 +246,14 @@ def run_case(case, model):
             if k == 'create':
                 cur = 0
             elif k == 'append':
+                if cur is None:
+                    unmodelled.append((n, 'append without a temporary file'))
+                    cur = 0
                 cur += 1
             elif k == 'rename':
-                dumps.append(cur)
+                dumps.append(cur if cur is not None else 1)
+            elif k == 'open-write':
+                unmodelled.append((n, 'file opened for writing in place'))
         c1 = dumps[0] if dumps else 1
         c2 = dumps[1] if len(dumps) > 1 else 1
         if op[0] == 'w':
@@ -332,6 +349,8 @@ def run_case(case, model):
             break
     if errors and mismatch is None:
         mismatch = {'op': 'storage op raised', 'errors': errors[:3]}
+    if unmodelled and mismatch is None:
+        mismatch = {'op': 'disk trace', 'impl': 'file-system effects the model does not have: %r' % unmodelled[:3], 'model': 'every write goes create / append* / rename'}
     tags = ['concurrent' if case['concurrent'] else 'sequential', 'ops=%d' % len(ops), 'snapshots<=30' if evaluated <= 30 else 'snapshots<=60' if evaluated <= 60 else 'snapshots>60']
     res = CaseResult(mismatch, hits, (repr(ops), case['concurrent']), tags)
     return res
